@@ -28,17 +28,53 @@ def _extra(lines, verdicts):
     return {"fault_kinds": faults, "requests_in_flight": inflight, "client_outcome_classes": classes,
             "max_completion_ms": tmax, "connection_traces_replayed_through_model": conns,
             "cases_skipped_because_setup_failed_5_times": skipped,
+            "sample_case_truncated": (lines[0][:380] + " ...") if lines else "",
             "burst_rounds_with_a_kill_while_requests_are_submitted": kills}
 
 
 def _post(lines, verdicts):
-    # a case whose set-up (mock cluster, session creation, prepare) failed five times in a row is
-    # skipped (environment, e.g. no free port); if that happens to more than a fifth of the cases the
-    # implementation can apparently no longer connect at all: report it
+    """Floors on what the run really exercised (a run that observed less than the evidence claims is a
+    broken correspondence), and the cap on cases that could not be set up (environment)."""
+    out = []
+    if not lines:
+        return out
+    n = len(lines)
     sk = [ln for ln in lines if ln.split("|", 1)[-1].strip().startswith("skip")]
-    if lines and len(sk) * 5 > len(lines):
-        return [("diff", sk[0], f"diff {len(sk)} of {len(lines)} cases could not be set up")]
-    return []
+    # set-up failed five times in a row (no free address/port, ...): counted not-run, small cap
+    if len(sk) * 50 > n:
+        out.append(("diff", sk[0][:300], f"diff {len(sk)} of {n} cases could not be set up (cap 2 %)"))
+    kinds, kills, broken_reqs, mid_frame_cuts, retried = {}, 0, 0, 0, 0
+    for ln in lines:
+        try:
+            case, obs = ln.split("|", 1)
+            f = case.split()
+            fk = re.sub(r"(?<=garb).*|(?<=ver).*", "", f[5])
+            kinds[fk] = kinds.get(fk, 0) + 1
+            if obs.strip().startswith("skip"):
+                continue
+            kv = dict(t.split("=", 1) for t in obs.split() if "=" in t)
+            if fk.startswith("burst"):
+                kills += kv.get("conns", "").count("R@") + kv.get("conns", "").count("F@")
+            broken_reqs += kv.get("res", "").count("err:broken.")
+            if fk in ("fin", "rst") and 0 < int(f[6]) < 60 and ("F@" in kv.get("conns", "") or "R@" in kv.get("conns", "")):
+                mid_frame_cuts += 1
+            if f[9] == "1" and kv.get("res", "").count("ok:") and "err" not in kv.get("res", "") and fk in ("fin", "rst", "unsol", "stall"):
+                retried += 1
+        except Exception:
+            pass
+    if n >= 500:   # a tier run, not a replay
+        need = {"fin": 60, "rst": 60, "garb": 20, "ver": 5, "unsol": 5, "stall": 5, "burstrst": 40,
+                "split": 2, "dup": 2, "short": 2, "neg": 1}
+        for k, m in need.items():
+            if kinds.get(k, 0) < m:
+                out.append(("diff", lines[0][:300], f"diff only {kinds.get(k, 0)} cases of fault kind {k} (floor {m})"))
+        if kills < 200:
+            out.append(("diff", lines[0][:300], f"diff only {kills} burst rounds really killed a connection (floor 200)"))
+        if broken_reqs < 500:
+            out.append(("diff", lines[0][:300], f"diff only {broken_reqs} requests failed with a broken-connection error (floor 500)"))
+        if mid_frame_cuts < 80:
+            out.append(("diff", lines[0][:300], f"diff only {mid_frame_cuts} cuts inside a frame were really performed (floor 80)"))
+    return out
 
 
 SPEC = {
@@ -46,6 +82,7 @@ SPEC = {
     "coq_targets": ["Props/C10.vo", "Extract/ExC10.vo"],
     "bin": "c10",
     "sizes": {"quick": 600, "thorough": 25000},
+    "min_cases": {"quick": 590, "thorough": 24500},
     "search_n": 3000,
     "search_rounds": 2,
     "rule": ("one real Session per case against a fresh mocknode cluster (1-2 nodes, 0/2 shards); n=1..50 requests in flight, "
